@@ -41,7 +41,7 @@ MANIFEST = {
         "design_ref": "DESIGN.md 3/C20",
     }
 }
-PROPS = ["Nstd.Args.Props"]
+PROPS = ["Nstd.Args.Props", "Nstd.Args.PropsWait", "Nstd.Args.PropsRun"]
 LEAN_TARGETS = PROPS + ["drv_args"]
 DRIVER = "drv_args"
 SOURCES = ["args.cpp", C.REPO / "src/String.cpp", C.REPO / "src/Memory.cpp", C.REPO / "src/Debug.cpp",
